@@ -105,6 +105,8 @@ def run(tier, seed):
              {"stmts": [["ascii", "A\tB\t\tC"], ["db", {"values": [9, 4, 5], "text": "(1 + 2) * 3, 4, 5"}], ["dw", {"values": [0x12, 0x1234], "text": "(0x1200 >> 8) & 0xFF, (0x12 << 8) + 0x34"}],
                         ["dl", {"values": [3, -1], "text": "(1 + 2), -1"}]], "start": 0x008000},
              # texts that look like something else to a helper shared with path directives: home-directory / environment / glob / escape syntax
+             # an escaped quote (backslash + quote, both emitted) at the end, at the start, alone, and doubled: only the two DELIMITERS are dropped
+             {"stmts": [["ascii", "say \\'hi\\'"], ["ascii", "\\'"], ["ascii", "\\'a"], ["ascii", "a\\'"], ["ascii", "\\'\\'"], ["db", {"values": [7], "text": "7"}]], "start": 0x008000},
              {"stmts": [["ascii", "~/SAVE 1"], ["ascii", "~"], ["ascii", "$HOME %PATH% *.bin"], ["ascii", "~root/x"]], "start": 0x008000}]
     for i in range(n):
         case = fixed[i] if i < len(fixed) else gen_case(rng, big=(i % 5 == 0))
@@ -117,7 +119,7 @@ def run(tier, seed):
             failures.append({"ident": "bounded/data-directives", "script": "b_C07.py", "payload": dict(case, history=[h for h in history if any(k == "incbin" for k, _ in h["stmts"])][-6:]), "observed": f})
         history.append(case)
     return {"evaluations": n, "distinct_nontrivial": len(distinct),
-            "rule": "three fixed .ascii programs holding every printable character and path-like texts, then seeded programs of 1-4 data directives (.db/.dw/.dl/.pointer lists with boundary, negative and over-wide values in several "
+            "rule": "four fixed .ascii programs (incl. escaped quotes at either end of the text) holding every printable character and path-like texts, then seeded programs of 1-4 data directives (.db/.dw/.dl/.pointer lists with boundary, negative and over-wide values in several "
                     "literal styles and separators, .ascii, .incbin of real temp files incl. lengths crossing bank ends) at window-edge start "
                     "addresses; output bytes, first offset, trailing label and incbin symbols compared with the statement's definition",
             "samples": samples, "failures": failures}
